@@ -42,6 +42,9 @@
 (*                          the loop pops on without re-testing the window    *)
 (*                          bound, so the first live event after a run of     *)
 (*                          cancelled ones is delivered even beyond the end.  *)
+(*  "stop_without_primary" hypothetical: the coordinator's early exit after the *)
+(*                          barrier tests "no primary (non-daemon) event      *)
+(*                          pending" instead of "all heaps empty".            *)
 (*  "link_latency_no_sample" AS CODE: for a link that declares a latency      *)
 (*                          distribution the exchange calls                   *)
 (*                          link.latency.sample(), which LatencyDistribution  *)
@@ -54,6 +57,9 @@ CONSTANTS Confs,     \* set of configurations [ep : Seq(partition), np : Nat, li
           MaxLat,    \* link minimum latencies range over 1..MaxLat
           MaxEv, MaxT, MaxOut,
           Cancels,   \* TRUE: handlers may cancel pending timers (Event.cancel())
+          Daemons,   \* TRUE: events may be daemon events (only chosen with a finite end_time: with
+                     \* end_time = Infinity the sequential engine auto-terminates on "no primary event",
+                     \* the statement does not say what the partitioned run owes then)
           ShortWin,  \* window ends falling short of the nominal tick (float truncation):
                      \* "never" | "fixed" (all windows or none) | "any" (from any window on)
           Interleave,\* TRUE: partitions' loop iterations interleave freely (thread pool)
@@ -62,8 +68,9 @@ CONSTANTS Confs,     \* set of configurations [ep : Seq(partition), np : Nat, li
 Inf == 999999
 
 VARIABLES conf, lat, w,          \* configuration
-          ev,                    \* program: 1..N -> [t, tgt, par, cby]; id = creation order in the reference
-                                 \* run; cby = the event whose handler cancels this one (a timer), or 0
+          ev,                    \* program: 1..N -> [t, tgt, par, cby, d]; id = creation order in the reference
+                                 \* run; cby = the event whose handler cancels this one (a timer), or 0;
+                                 \* d = daemon flag
           phase,                 \* "build" | "seq" | "par" | "done" | "crashed" (run() raised)
           sheap, slog,           \* sequential reference: heap (ids), per-entity delivery log (ids)
           heap, clock, outbox,   \* per partition
@@ -125,10 +132,12 @@ Init ==
 parVars == <<heap, clock, outbox, pdone, curN, curS, endN, endS, sub, plog, dropped, late, pcx, drain, ovr, shist>>
 
 \* ---- building the model: Event(...); sim.schedule(event) ---------------------
-CreatePre(t, g) ==
+DFlags == IF Daemons /\ EndT # Inf THEN BOOLEAN ELSE {FALSE}
+
+CreatePre(t, g, d) ==
     /\ phase = "build" /\ N < MaxEv
     /\ N > 0 => LexLE(<<ev[N].t, ev[N].tgt>>, <<t, g>>)        \* canonical order (symmetry)
-    /\ ev' = Append(ev, [t |-> t, tgt |-> g, par |-> 0, cby |-> 0])
+    /\ ev' = Append(ev, [t |-> t, tgt |-> g, par |-> 0, cby |-> 0, d |-> d])
     /\ UNCHANGED <<conf, lat, w, phase, sheap, slog>> /\ UNCHANGED parVars
 
 StartSeq ==
@@ -139,7 +148,7 @@ StartSeq ==
 \* ---- sequential reference: Simulation.run() over the union of all entities ----
 SMin == CHOOSE i \in sheap : \A j \in sheap : ev[i].t < ev[j].t \/ (ev[i].t = ev[j].t /\ i <= j)
 
-OutRec == [dt : 0..MaxT, tgt : Ents]
+OutRec == [dt : 0..MaxT, tgt : Ents, d : DFlags]
 \* a handler may address another partition only over a link and with the declared minimum delay
 OutOK(i, o) ==
     /\ ev[i].t + o.dt <= MaxT
@@ -163,7 +172,8 @@ SeqDeliver(outs, c) ==
        /\ \A k \in 1..(Len(outs) - 1) : LexLE(<<outs[k].dt, outs[k].tgt>>, <<outs[k+1].dt, outs[k+1].tgt>>)
        /\ c = 0 \/ (Cancels /\ c \in Cancellable(i))
        /\ ev' = [j \in 1..N |-> IF j = c THEN [ev[j] EXCEPT !.cby = i] ELSE ev[j]]
-                \o [k \in 1..Len(outs) |-> [t |-> ev[i].t + outs[k].dt, tgt |-> outs[k].tgt, par |-> i, cby |-> 0]]
+                \o [k \in 1..Len(outs) |-> [t |-> ev[i].t + outs[k].dt, tgt |-> outs[k].tgt, par |-> i, cby |-> 0,
+                                              d |-> outs[k].d]]
        \* a cancelled event is never delivered by the reference engine (lazy deletion at pop)
        /\ sheap' = (sheap \ {i, c}) \cup { N + k : k \in 1..Len(outs) }
        /\ slog' = [slog EXCEPT ![ev[i].tgt] = Append(@, i)]
@@ -274,7 +284,9 @@ Exchange ==
                    pcx, drain, ovr, shist>>
 
 \* ---- current_time = window_end; heaps-exhausted test; loop head --------------------
-AllEmpty == \A p \in Parts : heap[p] = {}
+\* all(not sim._event_heap.has_events() ...)   ("stop_without_primary": has_primary_events())
+AllEmpty == IF "stop_without_primary" \in Dev THEN \A p \in Parts : \A i \in heap[p] : ev[i].d
+            ELSE \A p \in Parts : heap[p] = {}
 
 Terminating == AllEmpty \/ ~BeforeEnd(endN, endS)
 AdvanceGuard == phase = "par" /\ sub = "advance"
@@ -321,7 +333,7 @@ IndepFinish ==
 Outs(k) == [1..k -> OutRec]
 
 Next ==
-    \/ \E t \in 0..MaxT, g \in Ents : CreatePre(t, g)
+    \/ \E t \in 0..MaxT, g \in Ents, d \in DFlags : CreatePre(t, g, d)
     \/ StartSeq
     \/ \E k \in 0..(IF MaxEv - N < MaxOut THEN MaxEv - N ELSE MaxOut) : \E outs \in Outs(k) :
           \E c \in {0} \cup (IF Cancels /\ phase = "seq" /\ sheap # {} THEN Cancellable(SMin) ELSE {}) : SeqDeliver(outs, c)
